@@ -16,7 +16,7 @@ func (*Pointer) Matches(_ *MethodContext, source, target *xtype.Type) bool {
 // Build creates conversion source code for the given source and target type.
 func (p *Pointer) Build(gen Generator, ctx *MethodContext, sourceID *xtype.JenID, source, target *xtype.Type, errPath ErrorPath) ([]jen.Code, *xtype.JenID, *Error) {
 	ctx.SetErrorTargetVar(jen.Nil())
-	if ctx.UseConstructor && ctx.Conf.DefaultUpdate {
+	if useConstructor(ctx, source, target) && ctx.Conf.DefaultUpdate {
 		buildStmt, valueVar, err := buildTargetVar(gen, ctx, sourceID, source, target, errPath)
 		if err != nil {
 			return nil, nil, err
@@ -75,7 +75,7 @@ func (*SourcePointer) Matches(ctx *MethodContext, source, target *xtype.Type) bo
 
 // Build creates conversion source code for the given source and target type.
 func (s *SourcePointer) Build(gen Generator, ctx *MethodContext, sourceID *xtype.JenID, source, target *xtype.Type, path ErrorPath) ([]jen.Code, *xtype.JenID, *Error) {
-	if ctx.UseConstructor && ctx.Conf.DefaultUpdate {
+	if useConstructor(ctx, source, target) && ctx.Conf.DefaultUpdate {
 		buildStmt, valueVar, err := buildTargetVar(gen, ctx, sourceID, source, target, path)
 		if err != nil {
 			return nil, nil, err
@@ -127,7 +127,7 @@ func (*TargetPointer) Matches(_ *MethodContext, source, target *xtype.Type) bool
 func (*TargetPointer) Build(gen Generator, ctx *MethodContext, sourceID *xtype.JenID, source, target *xtype.Type, path ErrorPath) ([]jen.Code, *xtype.JenID, *Error) {
 	ctx.SetErrorTargetVar(jen.Nil())
 
-	if ctx.UseConstructor {
+	if useConstructor(ctx, source, target) {
 		buildStmt, valueVar, err := buildTargetVar(gen, ctx, sourceID, source, target, path)
 		if err != nil {
 			return nil, nil, err
